@@ -105,6 +105,13 @@ func (v *V2) ReadHeaderWithValidation(buf []byte, startFileOffset uint32) (paylo
 				startFileOffset+v2PayloadSizeLen, bufSize)
 	}
 
+	actualBufSize := bufSize - startFileOffset
+	if actualBufSize < v2PayloadSizeLen {
+		return payloadSize, previousCrc, payloadCrc,
+			errors.Wrapf(ErrOffsetOutOfBounds, "expected payload size: %d. actual buf size: %d ",
+				startFileOffset+v2PayloadSizeLen, bufSize)
+	}
+
 	var headerOffset uint32
 	payloadSize = ReadInt(buf, startFileOffset)
 	headerOffset += v2PayloadSizeLen
@@ -114,12 +121,10 @@ func (v *V2) ReadHeaderWithValidation(buf []byte, startFileOffset uint32) (paylo
 		return payloadSize, previousCrc, payloadCrc, errors.Wrapf(ErrEmptyPayload, "unexpected empty payload")
 	}
 
-	expectSize := payloadSize + v.HeaderSize
-	// overflow checking
-	actualBufSize := bufSize - startFileOffset
-	if expectSize > actualBufSize {
+	// overflow checking: compare without adding to payloadSize, which could wrap around
+	if actualBufSize < v.HeaderSize || payloadSize > actualBufSize-v.HeaderSize {
 		return payloadSize, previousCrc, payloadCrc,
-			errors.Wrapf(ErrOffsetOutOfBounds, "expected payload size: %d. actual buf size: %d ", expectSize, bufSize)
+			errors.Wrapf(ErrOffsetOutOfBounds, "expected payload size: %d. actual buf size: %d ", payloadSize, bufSize)
 	}
 
 	previousCrc = ReadInt(buf, startFileOffset+headerOffset)
